@@ -1527,6 +1527,20 @@ def explore(name, body, max_paths=4000, on_exception=None):
             import traceback
 
             res.errors.append("exception: %r\n%s" % (e, traceback.format_exc(limit=12)))
+            # an exception that travelled through frames of the code under test is a CANDIDATE violation ("this call must
+            # return / must raise what the contract expects"): never a verdict by itself -- the unit's native replay decides
+            # on the real code (reproduced => VIOLATION with the failing input, otherwise the unit stays undecided)
+            src = os.environ.get("OSYRIS_SRC", "/repo/src")
+            frames = traceback.extract_tb(e.__traceback__)
+            through = [f for f in frames if f.filename.startswith(src + os.sep)]
+            if through:
+                ob = Obligation("no_unexpected_exception")
+                ob.status, ob.backend = "unknown", "symbolic-execution"
+                ob.path = list(p.trace)
+                ob.model = {"candidate_from_lemma": {"exception": repr(e), "raised_through": [
+                    "%s:%d %s" % (os.path.relpath(f.filename, src), f.lineno, f.name) for f in through][-6:]}}
+                ob.note = "exception through the code under test on a symbolic path; decided by replay on the real code"
+                p.obligations.append(ob)
         finally:
             _cur = None
         work.extend(p.forks)
